@@ -1259,3 +1259,116 @@ Proof.
       destruct (n_ssidx nd <? ss_index ss) eqn:Y; [lia | apply N.ltb_ge in Y; lia].
     + intros n' Hn'. now apply cupd_other.
 Qed.
+
+(* stage 3: the entries *)
+
+Lemma ents_okb_contig : forall es i prev, ents_okb i prev es = true -> contig i es.
+Proof.
+  induction es as [|e es IH]; intros i prev H; [exact I|].
+  cbn [ents_okb] in H. rewrite !andb_true_iff in H. destruct H as ((((H1 & H2) & H3) & H4) & H5).
+  apply N.eqb_eq in H1. split; eauto.
+Qed.
+
+Lemma max_entry_index_contig : forall es i acc, contig i es -> es <> [] -> acc <= i ->
+  max_entry_index acc es = i + nlen es - 1.
+Proof.
+  induction es as [|e es IH]; intros i acc HC HN HA; [contradiction|].
+  destruct HC as [HC1 HC2]. cbn [max_entry_index]. rewrite nlen_cons.
+  destruct es as [|e' es'].
+  - cbn [max_entry_index]. unfold nlen; cbn [length]. destruct (acc <? e_index e) eqn:E;
+      [apply N.ltb_lt in E | apply N.ltb_ge in E]; lia.
+  - rewrite (IH (i + 1)); auto; try discriminate.
+    + rewrite nlen_cons. lia.
+    + destruct (acc <? e_index e) eqn:E; [apply N.ltb_lt in E | apply N.ltb_ge in E]; lia.
+Qed.
+
+Lemma last_index_contig : forall es i, contig i es -> es <> [] -> last_index es = i + nlen es - 1.
+Proof.
+  induction es as [|e es IH]; intros i HC HN; [contradiction|].
+  destruct HC as [HC1 HC2]. rewrite nlen_cons. destruct es as [|e' es'].
+  - cbn [last_index]. unfold nlen; cbn [length]. lia.
+  - change (last_index (e :: e' :: es')) with (last_index (e' :: es')).
+    rewrite (IH (i + 1)); auto; try discriminate. rewrite nlen_cons. lia.
+Qed.
+
+Lemma KEntry_inj : forall n i j, KEntry n i = KEntry n j -> i = j.
+Proof. intros n i j H. unfold KEntry in H. now inversion H. Qed.
+
+Lemma wb_last_puts : forall n es i k, contig i es ->
+  (forall e, In e es -> k = KEntry n (e_index e) ->
+     wb_last (map (fun e => WPut (KEntry n (e_index e)) (VEntry e)) es) k = Some (Some (VEntry e))) /\
+  ((forall e, In e es -> k <> KEntry n (e_index e)) ->
+     wb_last (map (fun e => WPut (KEntry n (e_index e)) (VEntry e)) es) k = None).
+Proof.
+  induction es as [|e0 es IH]; intros i k HC; cbn [map wb_last].
+  - split; [intros e [] | auto].
+  - destruct HC as [HC1 HC2]. destruct (IH (i + 1) k HC2) as [IH1 IH2]. split.
+    + intros e [<-|HI] ->.
+      * rewrite IH2; [cbn [wkey]; now rewrite key_eqb_refl|].
+        intros e' HI' X. apply KEntry_inj in X. pose proof (contig_bounds _ _ _ HC2 HI'). lia.
+      * now rewrite (IH1 e HI eq_refl).
+    + intros H. rewrite IH2 by (intros e' HI'; apply H; now right).
+      cbn [wkey]. rewrite key_eqb_neq; auto. apply H. now left.
+Qed.
+
+Lemma stage_ents : forall g c nd n u, RnG g (c n) nd n -> u_node u = n ->
+  upd_ents_wf nd (u_ents u) = true ->
+  let (c', w) := save_tail plain_record c u in
+  RnG (gapply w g) (c' n) (upd_ents_step nd (u_ents u)) n /\
+  (forall n', n' <> n -> c' n' = c n') /\
+  (forall o, In o w -> key_node (wkey o) = n) /\
+  (forall k v, In (WPut k v) w -> wt k v).
+Proof.
+  intros g c nd n u H Hn Hwf. unfold save_tail, upd_ents_step. rewrite Hn.
+  destruct (u_ents u) as [|e0 es0] eqn:EU.
+  { split; [exact H|]. split; [auto|]. split; intros; contradiction. }
+  cbn [upd_ents_wf] in Hwf. set (es := e0 :: es0) in *.
+  rewrite !andb_true_iff in Hwf. destruct Hwf as (((W1 & W2) & W3) & W4).
+  apply N.ltb_lt in W1, W3. apply N.leb_le in W2.
+  set (i0 := e_index e0) in *.
+  pose proof (ents_okb_contig _ _ _ W4) as HCe.
+  assert (es <> []) as Hne by (subst es; discriminate).
+  unfold plain_record. rewrite (max_entry_index_contig es i0 0 HCe Hne ltac:(lia)).
+  assert (0 <? i0 + nlen es - 1 = true) as -> by (apply N.ltb_lt; subst es; rewrite nlen_cons; lia).
+  set (mi := i0 + nlen es - 1).
+  set (puts := map (fun e => WPut (KEntry n (e_index e)) (VEntry e)) es).
+  set (w := puts ++ [WPut (KMaxIndex n) (VMax mi)]).
+  pose proof (g_contig _ _ _ _ H) as HC.
+  destruct (contig_below _ _ i0 HC ltac:(lia) ltac:(unfold n_last in *; lia)) as [CB CL].
+  assert (HOth : forall k, k <> KMaxIndex n -> (forall e, In e es -> k <> KEntry n (e_index e)) -> gapply w g k = g k).
+  { intros k K1 K2. unfold gapply. subst w puts. rewrite wb_last_app. cbn [wb_last wkey].
+    rewrite key_eqb_neq by auto. now rewrite (proj2 (wb_last_puts n es i0 k HCe) K2). }
+  split; [|split; [|split]].
+  - unfold cs_set_max_index. rewrite cupd_same.
+    assert (Hlast' : n_marker nd + nlen (below i0 (n_ents nd) ++ es) = mi).
+    { rewrite nlen_app, CL. subst mi. lia. }
+    destruct H. constructor; cbn [n_marker n_mterm n_ents n_st n_ss c_state c_max c_snap]; auto.
+    + apply contig_app; auto. rewrite CL. replace (n_marker nd + 1 + (i0 - (n_marker nd + 1))) with i0 by lia. exact HCe.
+    + intros e HI. apply in_app_or in HI. destruct HI as [HI|HI].
+      * unfold below in HI. apply filter_In in HI. destruct HI as [HI HX]. apply N.ltb_lt in HX.
+        rewrite HOth; auto.
+        -- intros X; ktags; inversion X.
+        -- intros e' HI' X. apply KEntry_inj in X. pose proof (contig_bounds _ _ _ HCe HI'). lia.
+      * unfold gapply. subst w puts. rewrite wb_last_app. cbn [wb_last wkey].
+        rewrite key_eqb_neq by (intros X; ktags; inversion X).
+        now rewrite (proj1 (wb_last_puts n es i0 _ HCe) e HI eq_refl).
+    + left. unfold gapply. subst w puts. rewrite wb_last_app. cbn [wb_last wkey]. rewrite key_eqb_refl.
+      unfold n_last. cbn [n_marker n_ents]. now rewrite Hlast'.
+    + intros v X. inversion X. unfold n_last. cbn [n_marker n_ents]. now rewrite Hlast'.
+    + rewrite HOth; auto; intros; intro X; ktags; inversion X.
+    + intros i Hi. rewrite HOth; auto; intros; intro X; ktags; inversion X.
+    + destruct (n_ss nd).
+      * rewrite HOth; auto; intros; intro X; ktags; inversion X.
+      * intros i. rewrite HOth; auto; intros; intro X; ktags; inversion X.
+    + unfold n_last. cbn [n_marker n_ents]. rewrite Hlast'. subst mi. lia.
+  - intros n' Hn'. unfold cs_set_max_index. now rewrite cupd_other.
+  - intros o HI. subst w puts. apply in_app_or in HI. destruct HI as [HI|HI].
+    + apply in_map_iff in HI. destruct HI as (x & <- & _). unfold key_node; cbn; apply nid_eta.
+    + destruct HI as [<-|[]]. unfold key_node; cbn; apply nid_eta.
+  - intros k v HI. subst w puts. apply in_app_or in HI. destruct HI as [HI|HI].
+    + apply in_map_iff in HI. destruct HI as (x & X & HI). inversion X; subst.
+      pose proof (contig_bounds _ _ _ HCe HI). unfold wt; ktags; cbn.
+      repeat split; intros Y; try discriminate. exists x. repeat split; auto. lia.
+    + destruct HI as [HI|[]]. inversion HI; subst. unfold wt; ktags; cbn.
+      repeat split; intros Y; try discriminate. eauto.
+Qed.
